@@ -74,3 +74,47 @@ Theorem fallback_loses_committed :
                  FBase (KElect 2 5); FFallback 1; FBase (KElect 1 6)]%N in
   c_committed c = [(4, 0)]%N /\ c_leader c = 1%N /\ log_of c 1%N = [] /\ committed_lost c = true.
 Proof. vm_compute. repeat split; reflexivity. Qed.
+
+(* ---- re-admission to the in-sync set ---- *)
+Lemma prefix_of_prefixes {A} (a : list A) : forall b l, prefix a l -> prefix b l -> (length a <= length b)%nat -> prefix a b.
+Proof.
+  induction a as [|x a IH]; intros b l Ha Hb Hlen; [exists b; reflexivity|].
+  destruct b as [|y b]; [cbn in Hlen; lia|]. destruct Ha as [ta ->]. destruct Hb as [tb Hb]. cbn in Hb. injection Hb as -> Hb.
+  destruct (IH b (a ++ ta)) as [t ->]; [apply prefix_app|exists tb; exact Hb|cbn in Hlen; lia|]. exists t. reflexivity.
+Qed.
+
+(* Adding a reconciled replica that holds everything committed keeps the invariant (this is the
+   rule "log end at or beyond the leader's HW"; KExpand's "holds the whole log" is a special case) *)
+Theorem expand_behind_inv c r : Inv c -> In r (c_synced c) -> (length (c_committed c) <= length (log_of c r))%nat -> Inv (expand_behind c r).
+Proof.
+  intros [HA HB HC HD [HL1 HL2] HK HV HG HH0 HH1 HH2] Hr Hlen.
+  assert (Hrc : prefix (c_committed c) (log_of c r)).
+  { apply (prefix_of_prefixes _ _ (log_of c (c_leader c))); [apply HG; exact HL2|apply HD; exact Hr|exact Hlen]. }
+  constructor; cbn [expand_behind c_leader c_epoch c_synced c_committed c_isr];
+    change (log_of (expand_behind c r)) with (log_of c); change (hw_of (expand_behind c r)) with (hw_of c).
+  - exact HA.
+  - exact HB.
+  - exact HC.
+  - exact HD.
+  - split; [exact HL1|apply in_or_app; left; exact HL2].
+  - exact HK.
+  - intros x Hx Hv. unfold view_of in Hv |- *. cbn [expand_behind c_view] in Hv |- *. destruct (N.eq_dec x r) as [->|Hne].
+    + rewrite alookup_aset_same in Hv. lia.
+    + rewrite alookup_aset_other in * by exact Hne. apply in_app_or in Hx. destruct Hx as [Hx|[E|[]]]; [apply (HV x Hx); exact Hv|exfalso; apply Hne; symmetry; exact E].
+  - intros x Hx. apply in_app_or in Hx. destruct Hx as [Hx|[<-|[]]]; [apply HG; exact Hx|exact Hrc].
+  - exact HH0.
+  - exact HH1.
+  - exact HH2.
+Qed.
+
+(* The time rule admits more: replica 2 is at the log end when the log holds one message, is
+   removed from the in-sync set, two more messages are committed by the two that remain, and
+   replica 2 -- seen, and "caught up" a moment ago -- is added again; elected, it leads without
+   the two committed messages. *)
+Theorem expansion_by_time_loses_committed :
+  let c := frun (init_cluster [0; 1; 2]%N 0%N 4%N 1)
+                [FBase (KPublish 0); FBase (KFetch 2 1); FBase (KFetch 2 0); FBase (KShrink 2);
+                 FBase (KPublish 1); FBase (KPublish 2); FBase (KFetch 1 3); FBase (KFetch 1 0);
+                 FExpandBehind 2; FBase (KElect 2 5)]%N in
+  c_committed c = [(4, 0); (4, 1); (4, 2)]%N /\ c_leader c = 2%N /\ log_of c 2%N = [(4, 0)]%N /\ committed_lost c = true.
+Proof. vm_compute. repeat split; reflexivity. Qed.
